@@ -349,6 +349,9 @@ func cleanupFixture() {
 }
 
 func runC10(r *core.Run) {
+	// a build's result does not depend on what else is being built through the
+	// same LinkSystem at the same time (every interleaving at storage operations)
+	concurrentBuilds(r, func([2]c11Build) bool { return true })
 	defer cleanupFixture()
 	r.Rule("stateless DFS over choice sequences: (i) the iteration order of every map range in the builders (instrumented overlay: all permutations for maps <= 4 keys, rotations/reversal/adjacent swaps up to 16 keys, six fixed orders above), (ii) every permutation of the entry slice (n <= 5), (iii) source-reader fragmentation {full, 1 byte, half, (0,nil), data+EOF} with deviation bound 3 (quick 2); inputs: small file family incl. rabin/buzhash, every subset of a 6-name colliding universe at F in {8,256}, plain, quick-builder and recursive builds; oracle: exactly one distinct (link,size) observation per logical input")
 	if !overlayActive {
